@@ -468,6 +468,72 @@ def r02e(ctx):
     ctx.floor("R02e", n, 4, "node equality implementations")
 
 
+def r02l(ctx):
+    m = ctx.model
+    ctx.rule("R02l", "container equality keeps kinds apart: SequenceNode.__eq__ compares the `_children` collections only, and the "
+                     "collections of a multiset (HashableCounter), a mapping with key edits (HashableCounter) and a fixed-key mapping (dict) "
+                     "are all dict-like - two *empty* ones are == whatever the kind, so an empty set and an empty mapping are equal nodes "
+                     "and every zero-cost shortcut (R02a) treats `{}` and `set()` as the same datum")
+    sq = m.need_class("SequenceNode")
+    msq, mpq = m.find_class("MultiSetNode"), m.find_class("MappingNode")
+    if msq is None or mpq is None:
+        ctx.inconclusive("R02l", "graphtage/graphtage.py", "-", None, "container kinds", "MultiSetNode / MappingNode not found")
+        return
+    n = 0
+    reported = set()
+    for q in sorted(m.subclasses(msq)) + sorted(x for x in m.subclasses(mpq) if not m.is_subclass(x, msq)):
+        if m.is_abstract(q):
+            continue
+        eq = m.method(q, "__eq__")
+        if eq is None:
+            continue
+        n += 1
+        src = ast.unparse(eq.node)
+        kind = "MappingNode" in src or "type(self)" in src or "__class__" in src or "container_type" in src
+        short = q.rsplit(".", 1)[-1]
+        if kind:
+            ctx.proved("R02l", eq.file, eq.short, eq.node, f"{short} equality", "the comparison includes a kind test")
+        elif eq.qual not in reported:
+            reported.add(eq.qual)
+            ctx.violation("R02l", eq.file, eq.short, eq.node, "container kinds",
+                          f"{eq.short} (the equality every multiset and mapping class inherits) is `{norm(eq.node.body[-1], 70)}`: no kind test, and "
+                          f"HashableCounter() == {{}} == HashableCounter(): an empty multiset equals an empty mapping, `[{{}}]` vs `[set()]` "
+                          f"(pickle files, pydiff) costs 0 and exits 0")
+    ctx.floor("R02l", n, 2, "concrete multiset / mapping classes")
+
+
+def r02f2(ctx):
+    """Container half of R02f, for the properties that rest on the size-derived cap (C03, C04): run by them, not by C02 - a
+    container removed from or inserted into a list of containers carries a penalty of 1, so its cost is positive all the same."""
+    m = ctx.model
+    ctx.rule("R02f", "... and the size-derived cap of compound edits (from.total_size + to.total_size + 1, EditCollection.bounds) is an "
+                     "upper limit only if replacing a node never costs more than both sizes: Replace charges max(sizes) + 1, so every "
+                     "node that can be replaced must have size >= 1 - containers included")
+    sq = m.need_class("SequenceNode")
+    n = 0
+    seen = set()
+    for q in sorted(m.subclasses(sq)):
+        if m.is_abstract(q):
+            continue
+        cts = m.method(q, "calculate_total_size")
+        if cts is None or cts.qual in seen:
+            continue
+        seen.add(cts.qual)
+        n += 1
+        rets = [r.value for r in walk_no_nested(cts.node) if isinstance(r, ast.Return) and r.value is not None]
+        # `sum(<per-child term> for ...)` with no constant added outside the sum is 0 for an empty container
+        bare = [r for r in rets if isinstance(r, ast.Call) and call_name(r) == "sum"]
+        if bare:
+            ctx.violation("R02f", cts.file, cts.short, bare[0], "container size can be 0",
+                          f"{cts.short} is `{norm(bare[0], 60)}`: an empty container has size 0, Replace of it by anything of size s costs "
+                          f"s + 1 > 0 + s, and data-class nodes add no per-slot constant - a dozen replaced empty slots push a "
+                          f"FixedKeyDictNodeEdit above from.size + to.size + 1, bounds() turns to (-inf, inf) and the enclosing edit never "
+                          f"finishes refining")
+        else:
+            ctx.proved("R02f", cts.file, cts.short, cts.node, "container size >= 1", "a constant is added outside the sum over the children")
+    ctx.floor("R02f", n, 2, "container size functions examined")
+
+
 def r02j(ctx):
     m = ctx.model
     ctx.rule("R02j", "every character of a CSV cell reaches the tree: csv.reader is fed a file opened with newline='' (the csv module's "
@@ -575,6 +641,11 @@ def run(ctx):
     r02g(ctx)
     r02h(ctx)
     r02j(ctx)
+    r02l(ctx)
+    from .c09 import r09b
+    r09b(ctx)         # a loader's wrapper class must not make equal data unequal (or equal only from one side)
+    from .c18 import r18a
+    r18a(ctx)         # ... nor may a loader erase a scalar's type (bytes stored as text compare equal to that text)
     from ..memo import e13b
     e13b(ctx)         # no cost is memoised under a key that conflates 1, 1.0 and True
     from . import c14
